@@ -22,15 +22,19 @@ open _root_.Health
 the start. -/
 def current : Hist → Name → Option St
   | [], n => if n = [] then some .serving else none
-  | (.set m s, _) :: h, n => if m = n then some s else current h n
-  | (.clear m, _) :: h, n => if m = n then none else current h n
-  | (_, _) :: h, n => current h n
+  | e :: h, n =>
+    match e.1 with
+    | .set m s => if m = n then some s else current h n
+    | .clear m => if m = n then none else current h n
+    | _ => current h n
 
 /-- Number of Watch calls so far = the slot the next Watch call opens. -/
 def numWatches : Hist → Nat
   | [] => 0
-  | (.watch _, _) :: h => numWatches h + 1
-  | (_, _) :: h => numWatches h
+  | e :: h =>
+    match e.1 with
+    | .watch _ => numWatches h + 1
+    | _ => numWatches h
 
 /-- What the history says about stream `w`: its name, the status at subscription, and the
 events since the subscription (newest first). -/
@@ -45,28 +49,32 @@ def View.push (v : View) (e : Ev) : View := { v with evs := e :: v.evs }
 /-- `none`: slot `w` was never opened, was refused, or the stream has been dropped. -/
 def view : Hist → Nat → Option View
   | [], _ => none
-  | (.watch n, r) :: h, w =>
-    if numWatches h = w then (current h n).map (fun s0 => ⟨n, s0, []⟩)
-    else (view h w).map (·.push (.watch n, r))
-  | (.drop w', r) :: h, w =>
-    if w' = w then none else (view h w).map (·.push (.drop w', r))
-  | e :: h, w => (view h w).map (·.push e)
+  | e :: h, w =>
+    match e.1 with
+    | .watch n =>
+      if numWatches h = w then (current h n).map (fun s0 => ⟨n, s0, []⟩)
+      else (view h w).map (·.push e)
+    | .drop w' => if w' = w then none else (view h w).map (·.push e)
+    | _ => (view h w).map (·.push e)
 
 /-- The name was cleared at some point of `l`. -/
 def closed (n : Name) (l : Hist) : Bool := l.any (fun e => decide (e.1 = Op.clear n))
 
 /-- Event `e` is a delivery of a status on stream `w`. -/
-def isReport (w : Nat) : Ev → Bool
-  | (.next w', .value _) => decide (w' = w)
-  | _ => false
+def isReport (w : Nat) (e : Ev) : Bool :=
+  match e.1, e.2 with
+  | .next w', .value _ => decide (w' = w)
+  | _, _ => false
 
 def hasReported (w : Nat) (l : Hist) : Bool := l.any (isReport w)
 
 /-- The status delivered most recently on stream `w`. -/
 def lastReported (w : Nat) : Hist → Option St
   | [] => none
-  | (.next w', .value s) :: l => if w' = w then some s else lastReported w l
-  | _ :: l => lastReported w l
+  | e :: l =>
+    match e.1, e.2 with
+    | .next w', .value s => if w' = w then some s else lastReported w l
+    | _, _ => lastReported w l
 
 /-- Latest status of the registration: the newest `set n` that is not preceded (in time) by a
 `clear n`; the status at subscription if there is none. -/
